@@ -145,7 +145,8 @@ static void gen_opts(ParseOpts &o, Rng &r) {
 }
 // after the parse the target must be consistent: dump, walk, write, modify, destroy
 static int w_cont(void *, void *) { ++g_stats.events; return CIF_TRAVERSE_CONTINUE; }
-static void check_usable(const char *prop, cif_tp *cif, uint64_t salt) {
+static bool has_empty_loop(const MCont &c) { for (auto &l : c.loops) if (l.packets.empty()) return true; for (auto &f : c.frames) if (has_empty_loop(f)) return true; return false; }
+static void check_usable(const char *prop, cif_tp *cif, uint64_t salt, bool parse_completed = false) {
     if (!cif) return;
     MCif m;
     try { m = dump_cif(cif, prop); }
@@ -155,8 +156,12 @@ static void check_usable(const char *prop, cif_tp *cif, uint64_t salt) {
     }
     cif_handler_tp h = { (int (*)(cif_tp *, void *)) w_cont, (int (*)(cif_tp *, void *)) w_cont, (int (*)(cif_container_tp *, void *)) w_cont, (int (*)(cif_container_tp *, void *)) w_cont, (int (*)(cif_container_tp *, void *)) w_cont,
         (int (*)(cif_container_tp *, void *)) w_cont, (int (*)(cif_loop_tp *, void *)) w_cont, (int (*)(cif_loop_tp *, void *)) w_cont, (int (*)(cif_packet_tp *, void *)) w_cont, (int (*)(cif_packet_tp *, void *)) w_cont, NULL };
+    // a parse that ran to completion (every error accepted) leaves a valid CIF: in particular no loop without packets, which the
+    // data model does not allow and which cif_walk / cif_write reject (an aborted parse may leave the loop it was filling)
+    if (parse_completed) for (auto &b : m.blocks) if (has_empty_loop(b)) DVIOLATE("usable", "empty_loop_left", "cif_parse returned CIF_OK but left a loop without packets in block %s", u8(b.code_orig).c_str());
     int rc = cif_walk(cif, &h, NULL);
     if (!rc_defined(rc)) DVIOLATE("usable", "cif_walk", "cif_walk on the parsed CIF returned undefined code %d", rc);
+    if (parse_completed && rc != CIF_OK) DVIOLATE("usable", strprintf("cif_walk:%s", rc_name(rc)), "cif_parse returned CIF_OK but cif_walk over the resulting CIF returns %s", rc_name(rc));
     SimOut so; FILE *f = so.open(); rc = cif_write(f, NULL, cif); fclose(f);
     if (!rc_defined(rc)) DVIOLATE("usable", "cif_write", "cif_write on the parsed CIF returned undefined code %d", rc);
     // a new block with a fresh code and one item must be creatable and visible
@@ -223,7 +228,7 @@ static RunResult run_c03(const RunSpec &spec) {
             bool exempt = !o.options_valid() || out.stream_fault_fired || out.rc == CIF_MEMORY_ERROR;
             if (out.rc != CIF_OK && out.errs.empty() && !exempt) DVIOLATE("silent_failure", rc_name(out.rc), "cif_parse failed with %s without having reported any error to the callback (options valid, no I/O fault)", rc_name(out.rc));
         }
-        check_usable(prop, out.cif, spec.run);
+        check_usable(prop, out.cif, spec.run, out.rc == CIF_OK && o.target != 2);
     } catch (Violation &v) { bad.reset(new Violation(v)); }
     if (out.cif) { int rc = cif_destroy(out.cif); if (rc != CIF_OK && !bad) bad.reset(new Violation("C03.usable", "cif_destroy", strprintf("cif_destroy -> %s", rc_name(rc)), -1)); }
     else if (existing) { int rc = cif_destroy(existing); (void) rc; }
